@@ -434,6 +434,22 @@ func genC01(e *emitter, r *rng, thorough bool) {
 }
 
 func genC05(e *emitter, r *rng, thorough bool) {
+	// every prefix byte x {X valid, X zero, X = P} x {Y zero, Y one, Y = P-1}: the parity / range / curve checks in every order
+	{
+		g := mulG(big.NewInt(99991))
+		for pre := 0; pre < 256; pre++ {
+			if pre > 8 && pre%51 != 0 {
+				continue
+			}
+			for _, x := range []*big.Int{g.x, new(big.Int), curveP} {
+				for _, y := range []*big.Int{new(big.Int), big.NewInt(1), new(big.Int).Sub(curveP, big.NewInt(1)), g.y} {
+					b := append([]byte{byte(pre)}, pad32(x.Bytes())...)
+					b = append(b, pad32(y.Bytes())...)
+					e.emit("parse.prefix-x-y-grid", "parsepub "+hx(b))
+				}
+			}
+		}
+	}
 	// a valid encoding followed by 256, 512 or 65536 more bytes: the LENGTH must decide, not the length modulo 2^8 / 2^16
 	{
 		g := mulG(big.NewInt(424243))
@@ -601,6 +617,34 @@ func genC02(e *emitter, r *rng, thorough bool) {
 	}
 	keys := keyPool(r, nk)
 	hashes := hashPool(r, nh)
+	// search: signatures the library itself does not accept (a rare representation inside the signer — an intermediate that
+	// is not reduced before it is serialised — gives an (r,s) that no longer verifies; about one nonce in 10^5 for some
+	// slips).  Only inputs on which Sign and Verify disagree are emitted, so on a correct library this emits nothing.
+	{
+		n := 25000
+		if thorough {
+			n = 400000
+		}
+		dd := keys[len(keys)-1]
+		priv := privOf(dd)
+		pub := priv.PubKey()
+		hb := make([]byte, 32)
+		found := 0
+		for i := 0; i < n && found < 3; i++ {
+			v := r.next()
+			for j := 0; j < 32; j++ {
+				hb[j] = byte(v >> uint(8*(j%8)))
+				if j%8 == 7 {
+					v = v*6364136223846793005 + 1442695040888963407
+				}
+			}
+			sig, err := priv.Sign(hb)
+			if err != nil || !sig.Verify(hb, pub) {
+				found++
+				e.emit("sign.self-inconsistent", "sign "+nhx(dd)+" "+hx(hb))
+			}
+		}
+	}
 	// one key, several messages through ONE caller-owned buffer, signatures held to the end (equal lengths, mixed
 	// lengths, the same message twice, a message after a longer one)
 	for i, d := range keys {
